@@ -43,6 +43,10 @@ THEOREMS = [
     "C08_resume_in_place",
     "C08_flow_resume_transparent",
     "C08_flow_hit_no_call",
+    "C08_continue_reachable",
+    "C08_continue_same_end",
+    "C08_continue_queue_lost_witness",
+    "C08_continue_skips_job_witness",
     "C08_file_holds_last_cut",
     "C08_refail_conservative",
     "C08_recovery_root_only",
@@ -289,7 +293,7 @@ def _files():
     for r, _d, fs in os.walk("."):
         for f in fs:
             p = os.path.relpath(os.path.join(r, f))
-            if p.endswith(".log") or p.startswith("ckpt_copy") or p.startswith("clean"):
+            if p.endswith(".log") or p.startswith("ckpt_copy") or p.startswith("clean") or p.endswith("run_result.tmp"):
                 continue
             res.append(p)
     return sorted(res)
@@ -380,7 +384,14 @@ def probe_tree():
         m4.run()
         keyafter = bool(m4.cache_hit)
         _PROBE.update({"reset": reset, "drop": drop, "clearfail": clear_on_fail, "relink": relink, "order": order,
-                       "keepcomp": keepcomp, "keyafter": keyafter})
+                       "keepcomp": keepcomp, "keyafter": keyafter, "keepqueue": True, "itercopy": True})
+        # restart with the running flags kept: is a queued signal kept, are two running children both picked up?
+        q = _run_continue(_flat(4, [[[], [], []], [[3], [], []], [[1], [0], []], [[], [], []]], kind="continue", ckpt=1,
+                                exec=[0], choices=[0] * 20), probing=True)
+        t = _run_continue(_flat(5, [[[], [], []], [[], [], []], [[1], [0], [3]], [[4], [], []], [[], [], []]],
+                                kind="continue", ckpt=3, exec=[0, 1], choices=[0] * 20), probing=True)
+        _PROBE.update({"keepqueue": q["r"].get("out2", {}).get(2, "ND") != "ND",
+                       "itercopy": not str(t["r"].get("outcome2", "")).startswith("stuck")})
     finally:
         os.chdir(cwd)
         shutil.rmtree(d, ignore_errors=True)
@@ -564,7 +575,7 @@ def _run(wf, sched, on_root_run=None, suppress=False):
 
 def _clears_running(case, stage):
     kinds = (case.get("kinds") if stage == 2 else case.get("kinds2")) or {}
-    return case["kind"] == "checkpoint" or "kbd" in kinds.values()
+    return case["kind"] in ("checkpoint", "continue") or "kbd" in kinds.values()
 
 
 def resume_from_file(case, live=None):
@@ -646,6 +657,100 @@ def resume_from_file(case, live=None):
     }
 
 
+def _run_continue(case, probing=False):
+    """a checkpoint restarted with the children's `running` flags KEPT: their jobs wrote their results to disk
+    (`_serialize_result`), the restored graph takes the branch "start from a broken process" """
+    import pyiron_workflow.node as node_mod
+    import pyiron_workflow.storage as storage
+    from pyiron_workflow import Workflow
+
+    from . import nodes
+    from .execsim import CtlExecutor, Instrument, Scheduler, Stuck
+
+    nodes.reset()
+    for leftover in ("w", "ckpt_copy"):
+        shutil.rmtree(leftover, ignore_errors=True)
+    wf = _build(case)
+    lvs, node, comp = _index(wf, case)
+    sched = _mk_sched(case.get("choices", []))
+    exe = CtlExecutor(sched, "ctl")
+    for g in case.get("exec", []):
+        node[g].executor = exe
+        node[g]._serialize_result = True
+    node[case["ckpt"]].checkpoint = "pickle"
+    cut = {}
+    orig_save = storage.StorageInterface.save
+
+    def save(self_, node=None, filename=None, **kw):
+        orig_save(self_, node=node, filename=filename, **kw)
+        if not cut:
+            cut["files"] = _files()
+            cut["tokens"] = len(sched.trace)
+            cut["running"] = list(wf.running_children)
+            cut["queued"] = len(wf.signal_queue)
+            cut["live"] = _snapshot(lvs, by_gid)
+            shutil.copytree("w", "ckpt_copy", dirs_exist_ok=True)
+
+    by_gid = node
+    storage.StorageInterface.save = save
+    wiring1 = {}
+
+    def grab1():
+        wiring1[lvs[-1]["lid"]] = _wiring(lvs[-1], wf, node)
+
+    try:
+        outcome1, _ = _run(wf, sched, grab1)
+    finally:
+        storage.StorageInterface.save = orig_save
+    trace1 = list(sched.trace)
+    if not cut:
+        return {"obs": ["no-cut"], "stats": {"no_cut": 1}, "r": {"no_cut": True, "outcome1": outcome1}}
+    if not cut["running"]:
+        # nothing was out at the save: restoring this checkpoint is an ordinary resume (covered elsewhere)
+        r = {"kind": "continue", "probe": dict(_PROBE), "files": cut["files"], "tokens": cut["tokens"], "skip": True,
+             "running_at_cut": [], "queued_at_cut": cut["queued"], "wiring1": wiring1, "trace1": trace1,
+             "outcome1": outcome1}
+        return {"obs": ["files " + " ".join(cut["files"]), "K skip"], "r": r, "stats": {"kind:continue": 1, "continue:skip": 1}}
+    # the process died right after the save: only the jobs that were out then have written a result
+    for g in lvs[-1]["own"]:
+        f = os.path.join("w", f"n{g}", "run_result.tmp")
+        if f"n{g}" not in cut["running"] and os.path.exists(f):
+            os.remove(f)
+    for f in os.listdir("w"):
+        if f.startswith("picklestorage"):
+            os.remove(os.path.join("w", f))
+    for f in os.listdir("ckpt_copy"):
+        if f.startswith("picklestorage"):
+            shutil.copy(os.path.join("ckpt_copy", f), os.path.join("w", f))
+    nodes.reset()
+    wf2 = Workflow("w", autoload=None)
+    wf2.load()
+    lvs2, node2, _c2 = _index(wf2, case)
+    wf2.running = False  # the outermost graph is asked to run again; the children keep their flags
+    sched2 = _mk_sched([])
+    outcome2, _ = _run(wf2, sched2, None)
+    calls2 = [c[0] for c in nodes.CALL_LOG]
+    final = _snapshot(lvs2, node2)
+    r = {"kind": "continue", "probe": dict(_PROBE), "files": cut["files"], "tokens": cut["tokens"],
+         "running_at_cut": cut["running"], "queued_at_cut": cut["queued"], "live": cut["live"], "outcome1": outcome1,
+         "outcome2": outcome2, "calls2": calls2, "final": final, "wiring1": wiring1, "trace1": trace1,
+         "out2": {g: _out_value(node2[g]) for g in lvs2[-1]["own"]}}
+    own = lvs[-1]["own"]
+
+    def st(g):
+        fl = final[g]["flags"]
+        return "out" if fl == "R" else ("failed" if fl == "F" else ("done" if r["out2"][g] != "ND" else "idle"))
+
+    end = "exited" if outcome2 in ("ok", "failedchild") else ("stuck-idle" if outcome2.startswith("stuck") else "aborted")
+    obs = ["files " + " ".join(cut["files"]), f"K end {end}",
+           "K st " + " ".join(f"{g}:{st(g)}" for g in own),
+           "K calls " + " ".join(f"{g}:{calls2.count(g)}" for g in own),
+           "K out " + " ".join(f"{g}:{r['out2'][g]}" for g in own)]
+    stats = {"kind:continue": 1, "jobs_out_at_cut": len(cut["running"]), "queued_at_cut": int(cut["queued"] > 0),
+             f"continue:{end}": 1}
+    return {"obs": obs, "r": r, "stats": stats}
+
+
 def run_impl(case):
     if case.get("kind") == "malformed":
         return {"obs": ["bad-op"] * len(case["lines"]), "stats": {"malformed": 1}, "malformed": True}
@@ -657,6 +762,8 @@ def run_impl(case):
     from .execsim import CtlExecutor
 
     probe = dict(probe_tree())
+    if case["kind"] == "continue":
+        return _run_continue(case)
     nodes.reset()
     kind = case["kind"]
     # ---- A: the first run, up to the cut
@@ -902,6 +1009,8 @@ def model_input(case, impl):
     r = impl.get("r") or {}
     if "wiring1" not in r:
         return ["n 0", "bogus"]
+    if case["kind"] == "continue":
+        r = {**r, "wiring2": r["wiring1"], "trace2": [], "stage3": None}
     lvs = levels_of(case)
     n = case["N"]
     p = r["probe"]
@@ -912,6 +1021,7 @@ def model_input(case, impl):
     for lv in lvs:
         lines.append(f"level {lv['lid']}")
         lines.append("own " + " ".join(map(str, lv["own"])))
+        lines.append("order " + " ".join(str(nd["gid"]) for nd in lv["spec"]["nodes"]))
         for nd in lv["spec"]["nodes"]:
             for ups in _slot_sources(lv, nd["gid"]):
                 lines.append(f"slot {nd['gid']} " + " ".join(map(str, ups)))
@@ -955,7 +1065,9 @@ def model_input(case, impl):
     lines.append(f"suppress {int(bool(case.get('suppress')) and case['kind'] == 'recovery')}")
     lines.append("fails2 " + " ".join(map(str, case.get("fails2", []))))
     lines.append("kbd2 " + " ".join(str(k) for k in case.get("fails2", []) if kinds2.get(str(k)) == "kbd"))
-    if case["kind"] == "checkpoint":
+    if case["kind"] == "continue":
+        lines.append(f"continue {int(p['keepqueue'])} {int(p['itercopy'])}")
+    if case["kind"] in ("checkpoint", "continue"):
         c = case["ckpt"]
         lid = next(lv["lid"] for lv in lvs if c in lv["own"])
         lines.append(f"cut ckpt {lid} {c} 0")
@@ -1014,6 +1126,27 @@ def oracle(case, impl):
     r = impl.get("r") or {}
     fails = []
     kind = case["kind"]
+    if kind == "continue":
+        if r.get("no_cut") or r.get("skip"):
+            return []
+        two = len(r["running_at_cut"]) >= 2
+        queued = r["queued_at_cut"] > 0
+        s_ = lambda c: {"clause": c, "kind": "continue", "two_out": two, "queued": queued}  # noqa: E731
+        if r["outcome2"] != "ok":
+            fails.append({"clause": "restart-does-not-return", "detail": f"{r['outcome2']}; out at the cut: {r['running_at_cut']}",
+                          "signature": s_("restart-outcome")})
+        ref = reference(case)
+        bad = [g for g in r["out2"] if r["out2"][g] != ref[g]]
+        if bad and r["outcome2"] == "ok":
+            g = bad[0]
+            fails.append({"clause": "restart-outputs-differ",
+                          "detail": f"{len(bad)} node(s); node {g}: {r['out2'][g]} vs uninterrupted {ref[g]}; queued at the cut: "
+                                    f"{r['queued_at_cut']}", "signature": s_("restart-outputs")})
+        done = [g for g, v in r["live"].items() if v["flags"] == "-" and v["out"] != "ND"]
+        again = [g for g in done if g in r["calls2"]] + [int(l[1:]) for l in r["running_at_cut"] if int(l[1:]) in r["calls2"]]
+        if again:
+            fails.append({"clause": "completed-node-called-again", "detail": f"{again}", "signature": s_("recall")})
+        return fails
     lvs = levels_of(case)
     nested = len(lvs) > 1
     dirty = bool(case.get("dirty"))
@@ -1155,6 +1288,8 @@ def nontrivial(case, impl):
     if case.get("kind") == "malformed":
         return False
     r = impl.get("r") or {}
+    if case.get("kind") == "continue":
+        return bool(r.get("running_at_cut"))
     if "loaded" not in r:
         return False
     lv = leaves_of(case)
@@ -1367,9 +1502,24 @@ def gen_flow_case(rng, tier):
     return case
 
 
+def gen_continue_case(rng, tier):
+    """a flat graph with several children on executors that write their results to disk; the checkpoint is written by
+    a node behind a root, late completions, so that jobs are out (and signals queued) at the save"""
+    base = gen_case(rng, tier, force_kind="checkpoint", nested=False)
+    top = base["top"]
+    leaves = [nd["gid"] for nd in top["nodes"]]
+    behind = [g for g in leaves if any(top["slots"][str(g)])]
+    ckpt = rng.choice(behind) if behind else rng.choice(leaves)
+    ex = sorted(g for g in leaves if g != ckpt and rng.random() < 0.6)
+    return {"top": top, "N": base["N"], "kind": "continue", "ckpt": ckpt, "exec": ex, "mode": "ctl",
+            "choices": [0 if rng.random() < 0.9 else rng.randint(0, 3) for _ in range(4 * len(leaves))]}
+
+
 def gen_cases(rng, tier):
     for _ in range(30 if tier == "quick" else 500):
         yield gen_flow_case(rng, tier)
+    for _ in range(20 if tier == "quick" else 300):
+        yield gen_continue_case(rng, tier)
     n_cases = 230 if tier == "quick" else 5000
     for _ in range(n_cases):
         yield gen_case(rng, tier)
@@ -1424,6 +1574,11 @@ def corpus():
         {"gid": 7, "kind": "term"}],
         "slots": {"0": [[], [], []], "6": [[0], [0]], "7": [[6], [], []]}}, "N": 8, "kind": "checkpoint", "ckpt": 2,
         "exec": [1], "exec2": [1], "fails": [], "dirty": [], "mode": "ctl", "choices": [], "choices2": []}
+    # restart with the running flags kept: one job out + a signal queued (C08_continue_queue_lost_witness); two jobs out
+    yield _flat(4, [[[], [], []], [[3], [], []], [[1], [0], []], [[], [], []]], kind="continue", ckpt=1, exec=[0],
+                choices=[0] * 20)
+    yield _flat(5, [[[], [], []], [[], [], []], [[1], [0], [3]], [[4], [], []], [[], [], []]], kind="continue", ckpt=3,
+                exec=[0, 1], choices=[0] * 20)
     # a hand-wired flow 0 >> 1 >> 2, 0 >> 3: 1 raises
     yield _flat(4, [[[], [], []], [[0], [], []], [[1], [], []], [[0], [], []]], kind="recovery", fails=[1], flow=True,
                 force_starters=[0])
@@ -1449,6 +1604,10 @@ def corpus():
 
 def shrink_candidates(case):
     if case.get("kind") == "malformed":
+        return
+    if case.get("kind") == "continue":
+        for g in case["exec"]:
+            yield {**case, "exec": [e for e in case["exec"] if e != g]}
         return
     if case.get("dirty"):
         yield {**case, "dirty": []}
